@@ -129,9 +129,23 @@ class uninstall(repo_ops.uninstall):
     def remove_data(self):
         return True
 
+    def _hide_removed(self):
+        """Move the package out of sight of repo listings (they skip .tmp.*)."""
+        doomed = pjoin(
+            os.path.dirname(self.remove_path),
+            f".tmp.removing.{os.path.basename(self.remove_path)}",
+        )
+        if os.path.lexists(doomed):
+            # left behind by an interrupted run
+            shutil.rmtree(doomed)
+        os.rename(self.remove_path, doomed)
+        return doomed
+
     def finalize_data(self):
         update_mtime(self.repo.location)
-        shutil.rmtree(self.remove_path)
+        # one rename takes the package out of the repo; deleting a tree file by
+        # file would show a half removed package to anyone listing meanwhile.
+        shutil.rmtree(self._hide_removed())
         update_mtime(self.repo.location)
         return True
 
